@@ -114,6 +114,17 @@ def _normalize_dimension_numbers(dnums_like: Any) -> ScatterSpec:
             raise ValueError(f"scatter lowering missing field '{name}'")
         return tuple(int(v) for v in value)
 
+    for batching_field in ("operand_batching_dims", "scatter_indices_batching_dims"):
+        present = hasattr(dnums_like, batching_field) or (
+            isinstance(dnums_like, dict) and batching_field in dnums_like
+        )
+        if present and _get(batching_field):
+            # Produced by JAX's batching rules (vmap of dynamic_update_slice /
+            # .at[].set): the lowering below has no notion of batch dimensions.
+            raise NotImplementedError(
+                f"scatter lowering: non-empty {batching_field} is not supported"
+            )
+
     return ScatterSpec(
         update_window_dims=_get("update_window_dims"),
         inserted_window_dims=_get("inserted_window_dims"),
